@@ -42,6 +42,7 @@ type c11Scenario struct {
 	Tree    c11Node `json:"tree"`
 	Evals   int     `json:"evals"`
 	Subs    int     `json:"subscriber_threads"`
+	Fresh   bool    `json:"handlers_first_used_by_subscribes,omitempty"`
 	ObOn    bool    `json:"observe_on"`
 	SubOn   bool    `json:"subscribe_on"`
 	NoNext  bool    `json:"one_subscription_without_onnext"`
@@ -118,6 +119,9 @@ func genC11(t *simrt.Tape, tier string) Scenario {
 		sc.Reconf = []string{"subscribeOn-nil", "subscribeOn-h3", "observeOn-nil"}[t.Choose(3)]
 		sc.ReconfD = t.Choose(8)
 	}
+	// the handlers are used for the first time by the concurrent Subscribes themselves (their goroutine
+	// is identified afterwards), instead of being probed - and thereby warmed up - beforehand
+	sc.Fresh = (sc.ObOn || sc.SubOn) && t.Bool(1, 3)
 	return sc
 }
 
@@ -256,11 +260,15 @@ func (sc *c11Scenario) Run(s *simrt.Sim) {
 	sc.h1, sc.h2 = -1, -1
 	if sc.ObOn {
 		h1 = fpgo.Handler.New()
-		sc.h1 = sc.handlerTID(s, h1)
+		if !sc.Fresh {
+			sc.h1 = sc.handlerTID(s, h1)
+		}
 	}
 	if sc.SubOn {
 		h2 = fpgo.Handler.New()
-		sc.h2 = sc.handlerTID(s, h2)
+		if !sc.Fresh {
+			sc.h2 = sc.handlerTID(s, h2)
+		}
 	}
 	m.ObserveOn(h1).SubscribeOn(h2)
 	var ths []*simrt.Thread
@@ -326,6 +334,14 @@ func (sc *c11Scenario) Run(s *simrt.Sim) {
 	}
 	s.SetFair(true)
 	s.Sleep(time.Second) // anything delivered twice would show up now
+	if sc.Fresh {
+		if h1 != nil {
+			sc.h1 = sc.handlerTID(s, h1)
+		}
+		if h2 != nil {
+			sc.h2 = sc.handlerTID(s, h2)
+		}
+	}
 }
 
 func c11Names(l []c11Ev) []string {
@@ -401,6 +417,9 @@ func (sc *c11Scenario) Check(res *simrt.Result) []Violation {
 	}
 	vs = append(vs, opPanics(sc.h)...)
 	vs = append(vs, sc.extra...)
+	if sc.Fresh && sc.Subs >= 2 {
+		sc.probes["handler-first-used-by-concurrent-subscribes"]++
+	}
 	mode := fmt.Sprintf("observeOn=%v,subscribeOn=%v", sc.ObOn, sc.SubOn)
 	add := func(clause, fp, detail string) {
 		vs = append(vs, Violation{Clause: clause, Fingerprint: fp, Detail: mode + ": " + detail})
